@@ -32,7 +32,7 @@ run() { # name, expected exit status, expected substring of the output
 
 git -C /repo worktree add -q --detach "$W" HEAD || exit 2
 trap 'git -C /repo worktree remove --force "$W"; cd "$here" && ./check C08 >/dev/null 2>&1' EXIT
-want=${*:-add delete sort map-inplace presize loop-index base}
+want=${*:-add delete sort map-inplace cache-index cache-type collector presize loop-index base}
 for m in $want; do
 case $m in
 add)  # Array.Add: back to append(av.elements, ov)
@@ -56,6 +56,26 @@ map-inplace)  # Array.Map writes the mapped values into the receiver
 	}
 	return av''')"
   run "mutant Array.Map maps in place" 1 'VIOLATION property=C08 replay=[^ ]*$' ;;
+cache-index)  # MutableHashValue.PutAll no longer resets the key index
+  edit types/hashtype.go "s.replace('''	hv.detailedType = nil
+	hv.index = nil
+''', '''	hv.detailedType = nil
+''')"
+  run "mutant PutAll keeps the stale key index" 1 'VIOLATION property=C08 replay=[^ ]*$' ;;
+cache-type)  # … nor the inferred type (the defect fixed by 01dc3ec)
+  edit types/hashtype.go "s.replace('''	hv.reducedType = nil
+	hv.detailedType = nil
+''', '''	hv.detailedType = nil
+''')"
+  run "mutant PutAll keeps the stale inferred type" 1 'VIOLATION property=C08 replay=[^ ]*$' ;;
+collector)  # a rewrite of the collector's hash callback that the extractor does not recognise: broken obligation
+  edit types/basiccollector.go "s.replace('''			entries = append(entries, WrapHashEntry(st[i], st[i+1]))
+		}
+		return entries''', '''			entries = append(entries, WrapHashEntry(st[i], st[i+1]))
+		}
+		entries = entries[:len(entries):len(entries)]
+		return entries''')"
+  run "rewrite of the collector's hash callback (extractor: unknown)" 1 'VIOLATION property=C08' ;;
 presize)  # harmless: pre-size fresh slices differently
   edit types/arraytype.go "s.replace('''	el := make([]px.Value, len(av.elements)+1)
 	copy(el, av.elements)
